@@ -7,6 +7,7 @@ CONSTANTS
   Ups = {%(ups)s}
   DataIds = {"A", "B"}
   PreReg <- %(prereg)s
+  DedupPreReg = %(dedup)s
   MaxChunks = %(maxc)d
   Readers = {%(readers)s}
   Cap = %(cap)d
@@ -27,11 +28,11 @@ def q(xs):
 
 
 def write_cfg(name, ups=("X", "Y"), prereg="PreRegA", maxc=3, readers=("R1",), cap=2, faults=0, byvalue=True, requeue=False,
-              bogus=True, view=True, invs=INVS, gen=False):
+              bogus=True, view=True, invs=INVS, gen=False, dedup=True):
     with open(os.path.join(SPEC, name), "w") as f:
         f.write(CFG % dict(ups=q(ups), prereg=prereg, maxc=maxc, readers=q(readers), cap=cap, faults=faults,
                            byvalue="TRUE" if byvalue else "FALSE", requeue="TRUE" if requeue else "FALSE",
-                           bogus="TRUE" if bogus else "FALSE", view="VIEW View" if view else "", invs=invs,
+                           bogus="TRUE" if bogus else "FALSE", dedup="TRUE" if dedup else "FALSE", view="VIEW View" if view else "", invs=invs,
                            constraint="CONSTRAINT GenPrint" if gen else ""))
     return name
 
